@@ -103,12 +103,15 @@ def order(n, kind, same_names=False, fix=None):
             return 'CREATE TABLE statements are not a permutation of the tables'
         pos = {x: created.index(x) for x in names}
         ins = {names[idx]: p for p, idx in enumerate(perms[a['perm']])}
+        # the FOREIGN KEY clauses read from the script are exactly the references each table holds (no clause in any other table)
+        for i in range(n):
+            st = [s for s in r[0] if s[0] == 'table' and s[1] == names[i]][0]
+            got = sorted(fk[2] for fk in st[4])
+            want = sorted(names[j] for (h, j) in edges if h == i)
+            if got != want:
+                return 'the FOREIGN KEY clauses of a CREATE TABLE are not exactly the inline references that table holds'
         for i, j in edges:
             holder, target = names[i], names[j]
-            # the FOREIGN KEY clause must really sit in the holder's CREATE TABLE
-            st = [s for s in r[0] if s[0] == 'table' and s[1] == holder][0]
-            if not any(fk[2] == target for fk in st[4]):
-                return 'inline reference is not a clause of its key holder table'
             if pos[target] < pos[holder]:
                 continue
             if region_active('c18_counting_heuristic'):
